@@ -6,6 +6,12 @@ use std::time::Instant;
 
 pub const VERIF_DIR: &str = "/verif";
 
+/// Where evidence and replay files go (VERIF_OUT_DIR overrides, for
+/// background exploration runs that must not touch the committed evidence).
+pub fn out_dir() -> String {
+    std::env::var("VERIF_OUT_DIR").unwrap_or_else(|_| VERIF_DIR.to_string())
+}
+
 #[derive(Clone, Debug)]
 pub struct Violation {
     /// oracle class: "model", "refusal", "spec", "reopen", "panic", ...
@@ -189,7 +195,7 @@ impl Ctx {
         let viols = self.violations.lock().unwrap();
         let mut exit = 0;
         let mut n_viol = 0i64;
-        let _ = std::fs::create_dir_all(format!("{}/replays", VERIF_DIR));
+        let _ = std::fs::create_dir_all(format!("{}/replays", out_dir()));
         let mut viol_list = Vec::new();
         let mut known_list = Vec::new();
         for (sig, (v, count)) in viols.iter() {
@@ -205,7 +211,7 @@ impl Ctx {
             }
             n_viol += 1;
             let h = fnv64(sig.as_bytes());
-            let path = format!("{}/replays/{}-{:016x}.json", VERIF_DIR, self.property, h);
+            let path = format!("{}/replays/{}-{:016x}.json", out_dir(), self.property, h);
             let doc = json!({
                 "property": self.property,
                 "engine": self.engine,
@@ -261,8 +267,8 @@ impl Ctx {
             "wall_s": self.t0.elapsed().as_secs_f64(),
             "violations": n_viol,
         });
-        let _ = std::fs::create_dir_all(format!("{}/evidence", VERIF_DIR));
-        let path = format!("{}/evidence/{}.json", VERIF_DIR, self.property);
+        let _ = std::fs::create_dir_all(format!("{}/evidence", out_dir()));
+        let path = format!("{}/evidence/{}.json", out_dir(), self.property);
         if let Err(e) = std::fs::write(&path, serde_json::to_string_pretty(&ev).unwrap()) {
             eprintln!("cannot write evidence {}: {}", path, e);
             return 2;
